@@ -72,6 +72,12 @@ CLAIMED["C15"] = dict(
    note="Trusted: sync.Once (one execution over all goroutines; every Do returns after it completed), sync.Mutex exclusion, sync/atomic sequential consistency with the declared rely (guaranteed in turn by the function's own writes), blocking select semantics. 'Exactly once over all goroutines' and 'never two executions at once' follow from these trusted primitives plus the proved per-call obligations.",
    technique="contract-based deductive verification of each wrapper closure with ghost call counters, a sync.Once model, atomics with rely/guarantee, call-order and under-lock obligations")
 
+CLAIMED["C02"] = dict(
+   text="Step contracts of the sequential operators against the ghost stream of their input producer (an unknown function value; callret(p, k) is the value/error of its k-th call and calls(p) the cursor - this assumes nothing about the producer): Iterator.ReadOne (a closed iterator yields io.EOF without consuming; otherwise it consumes up to the first element that is not a skip, the skipped ones are exactly those with ErrIteratorSkip, a value is returned unchanged, after an error from the stream the iterator is closed so nothing further is yielded, non-terminating errors go to the error handler and are reported as io.EOF), Iterator.Next (same, caching the value; false leaves it unchanged), SliceIterator (k-th call yields s[k], io.EOF from len(s) on, index in bounds), Producer.Filter and Iterator.Filter (the first element satisfying the predicate, every earlier check false, failing elements become skips), Producer.Join (the concatenation state machine: first producer only in stage 0, second only after the first's io.EOF, failures sticky, io.EOF forever after the second ends, skips consumed, values unchanged), Transform.Producer (map with skip: transform applied exactly to the elements that arrived without error, skips from either side dropped, first other error ends the call), Converter / ConverterOk / ConverterErr. The lift from steps to whole sequences (filter, map, concat, identity) is the induction of DESIGN 5.6 (not mechanised). Not under contract: Reduce, Count, Observe, Process, Slice, MarshalJSON/UnmarshalJSON, itertool (Uniq, Indexed, DropZeroValues, Reduce, Contains), the dt producers, and every channel-backed operator (Buffer, Split, Channel, Chain, Merge*).",
+   ref="DESIGN.md 5.6, 7/C02",
+   note="Assumed (listed in evidence): sequential use of the iterator (no other goroutine changes its closed flag / once during a call); the two producers joined are distinct function values. Trusted: errors.Is, sync.Once, atomics.",
+   technique="contract-based deductive verification of operator closures against a ghost call-history stream model, loop invariants quantified over the consumed prefix")
+
 NOT_APPLICABLE = {
  "C01": "exactly-once delivery across an unbounded set of goroutines and channels is a whole-execution property; no per-function contract within reach of the generator states it (DESIGN 7/C01)",
  "C04": "liveness (every goroutine eventually exits, a blocked consumer returns promptly): contracts give partial correctness only (DESIGN 7/C04)",
